@@ -28,15 +28,16 @@ INVARIANTS = ["P01_once", "P02_gate", "P03_prompt", "P04_stray", "P05_content", 
 
 
 def mc_cfg_text(table, ids="Ids1", max_inst=1, max_pw=2, stray=0, junk=False, emit_mod=0, bug="NoBug",
-                timeout_on=True, invariants=None, rich=False, pw_on=True, simulate=False):
+                timeout_on=True, invariants=None, rich=False, pw_on=True, simulate=False, rich_sel="NoRich",
+                script="NoScript"):
     inv = list(INVARIANTS if invariants is None else invariants)
     if simulate:
         inv.append("SimEmit")
     return ("CONSTANTS\n  Services <- %s\n  TimeoutOn = %s\n  Bug <- %s\n  Ids <- %s\n  MaxInst = %d\n  MaxPw = %d\n"
-            "  StrayLevel = %d\n  JunkOn = %s\n  Rich = %s\n  PwOn = %s\n  EmitMod = %d\nINIT MCInit\nNEXT MCNext\nVIEW MCView\n"
+            "  StrayLevel = %d\n  JunkOn = %s\n  Rich = %s\n  PwOn = %s\n  RichSel <- %s\n  Script <- %s\n  EmitMod = %d\nINIT MCInit\nNEXT MCNext\nVIEW MCView\n"
             "%s%s\n") % (
         table, "TRUE" if timeout_on else "FALSE", bug, ids, max_inst, max_pw, stray,
-        "TRUE" if junk else "FALSE", "TRUE" if rich else "FALSE", "TRUE" if pw_on else "FALSE", emit_mod,
+        "TRUE" if junk else "FALSE", "TRUE" if rich else "FALSE", "TRUE" if pw_on else "FALSE", rich_sel, script, emit_mod,
         "" if simulate else "ACTION_CONSTRAINT Emit\n", "\n".join("INVARIANT " + i for i in inv))
 
 
@@ -96,7 +97,7 @@ def _cleanup_events(beh_events):
     return [{"e": "D", "id": i} for i in ids]
 
 
-def probe_tail(events, svcs):
+def probe_tail(events, svcs, interleave=False):
     """Distinguishing tail appended to a model behaviour: the model's states abstract from how they were
     reached, so after the behaviour's last transition every client it announced is driven towards a verdict
     (hurry-up, an OK from every service with the client's latest tag, timeout).  If the implementation's hidden
@@ -108,17 +109,27 @@ def probe_tail(events, svcs):
         if e["e"] == "C":
             serial += 1
             last[e["id"]] = serial
-    tail = []
+    tails = []
     for i, ser in last.items():
+        tail = []
+        tails.append(tail)
         tag = "%x_%x" % (i, ser)
-        tail.append({"e": "P", "id": i, "shape": "ok", "modes": ["+", "x"], "cred": ["pt", 9], "raw": ["P+xpt", 0]})
+        # every client gets its own texts, so that data leaking from one client into another's lines is visible
+        tail.append({"e": "P", "id": i, "shape": "ok", "modes": ["+", "x"], "cred": ["pt%x" % i, 10],
+                     "raw": ["P+xpt%x" % i, 0]})
         tail.append({"e": "H", "id": i})
         for s in svcs:
-            tail.append({"e": "X", "svc": s["name"], "tag": tag, "kind": "OKA", "acct": ["ac1", 8], "text": ["t1", 9],
+            tail.append({"e": "X", "svc": s["name"], "tag": tag, "kind": "OKA", "acct": ["ac%x" % i, 8], "text": ["t1", 9],
                          "trail": ""})
         tail.append({"e": "TO", "id": i})
-        tail.append({"e": "n", "id": i, "nick": ["n1", 5]})
-    return tail
+        tail.append({"e": "n", "id": i, "nick": ["n%x" % i, 5]})
+    if interleave:
+        # round robin over the clients (C07: the tails of different clients overlap)
+        out = []
+        for k in range(max([len(t) for t in tails] or [0])):
+            out.extend(t[k] for t in tails if k < len(t))
+        return out
+    return [e for t in tails for e in t]
 
 
 def _replay_worker(args):
@@ -147,8 +158,9 @@ def _replay_worker(args):
             d = D.Daemon(b, workdir, svcs, timeout=("1h" if timeout_on else None),
                          modules=opts.get("modules", ("iauth_xquery",)), rules=opts.get("rules"),
                          logs=opts.get("logs"))
-            w(D.reset_record(svcs, timeout_on), -1, -1)
+            w(D.reset_record(svcs, timeout_on, cls=opts.get("cls")), -1, -1)
             serial = 0
+            gens = {}
             crashed = d.dead
             if crashed:
                 w({"e": "Crash", "ev": {"e": "startup"}, "partial": []}, pos, -1)
@@ -156,11 +168,12 @@ def _replay_worker(args):
             for off, (bi, events) in enumerate(chunk):
                 if crashed:
                     break
-                tm = D.TagMap(serial)
+                tm = D.TagResolver(serial, gens)
                 evs = list(events) + _cleanup_events(events)
                 for si, e in enumerate(evs):
                     e2 = tm.event(e)
                     rec = d.step(e2)
+                    tm.observe(e2, rec)
                     nsteps += 1
                     w(rec, bi, si)
                     if rec["e"] == "Crash":
